@@ -472,6 +472,17 @@ async fn run_seq(idx: usize, c: Value) -> Value {
       let _ = receiver.recv_multipart().await;
     }
   }
+  // optional bystander: another peer of the SENDING socket that goes away in the middle of a part-wise send
+  let mut bystander: Option<Socket> = None;
+  if b(&c, "bystander") && sender_binds {
+    let by = mk_socket(&ctx, "DEALER", Some(b"BY"), 2000).await;
+    if by.connect(&ep).await.is_ok() {
+      tokio::time::sleep(Duration::from_millis(if tcp { 250 } else { 80 })).await;
+      let _ = by.send(hello()).await;
+      let _ = sender.recv_multipart().await;
+      bystander = Some(by);
+    }
+  }
   // ROUTER sender learns the DEALER's identity from ROUTING_ID "RX"
   for m in c["messages"].as_array().unwrap() {
     let mut frames = build_message(1, m);
@@ -480,7 +491,25 @@ async fn run_seq(idx: usize, c: Value) -> Value {
       idm.set_flags(MsgFlags::MORE);
       frames.insert(0, idm);
     }
-    let (code, det) = send_message(&sender, frames, m["via"].as_str() == Some("parts")).await;
+    let (code, det) = if let (Some(k), true) = (m.get("by_close_after").and_then(|v| v.as_u64()), m["via"].as_str() == Some("parts")) {
+      // part by part; the bystander closes after the k-th part
+      let mut res = (0u64, 0u64);
+      for (i, f) in frames.into_iter().enumerate() {
+        if i as u64 == k {
+          if let Some(by) = bystander.take() {
+            let _ = tokio::time::timeout(Duration::from_secs(2), by.close()).await;
+            tokio::time::sleep(Duration::from_millis(400)).await;
+          }
+        }
+        res = send_message(&sender, vec![f], true).await;
+        if res.0 != 0 {
+          break;
+        }
+      }
+      res
+    } else {
+      send_message(&sender, frames, m["via"].as_str() == Some("parts")).await
+    };
     rows.push(vec![30, 1, u(m, "id"), code, det]);
   }
   for (k, op) in c["script"].as_array().unwrap().iter().enumerate() {
